@@ -215,6 +215,29 @@ func (p *ReverseProxy) modifyResponse(rw http.ResponseWriter, res *http.Response
 	return true
 }
 
+// fixedLengthBody reports io.EOF once the declared Content-Length has been
+// read, without touching the underlying body again. remaining is negative
+// when the length is unknown (chunked), in which case it changes nothing.
+// Read is only called by the transport's write loop, so no locking is needed.
+type fixedLengthBody struct {
+	io.ReadCloser
+	remaining int64
+}
+
+func (b *fixedLengthBody) Read(p []byte) (int, error) {
+	if b.remaining == 0 {
+		return 0, io.EOF
+	}
+	n, err := b.ReadCloser.Read(p)
+	if b.remaining > 0 {
+		b.remaining -= int64(n)
+		if b.remaining < 0 {
+			b.remaining = 0
+		}
+	}
+	return n, err
+}
+
 func (p *ReverseProxy) ServeHTTP(rw http.ResponseWriter, req *http.Request) {
 	transport := p.Transport
 	if transport == nil {
@@ -242,6 +265,14 @@ func (p *ReverseProxy) ServeHTTP(rw http.ResponseWriter, req *http.Request) {
 		outreq.Body = nil // Issue 16036: nil Body for http.Transport retries
 	}
 	if outreq.Body != nil {
+		// The HTTP/1 server closes the request body as soon as the first byte
+		// of the response is written. After copying Content-Length bytes the
+		// transport reads the body once more to check for surplus data; if
+		// that read comes after the close it fails with "invalid Read on
+		// closed Body", the transport tears down the backend connection and
+		// the response that is being relayed gets truncated. Answer reads
+		// past the declared length ourselves.
+		outreq.Body = &fixedLengthBody{ReadCloser: outreq.Body, remaining: req.ContentLength}
 		// Reading from the request body after returning from a handler is not
 		// allowed, and the RoundTrip goroutine that reads the Body can outlive
 		// this handler. This can lead to a crash if the handler panics (see
